@@ -536,11 +536,9 @@ func (a *An) c07Skeleton() {
 	// collision comparator
 	if fn := a.MustFn("(authStateAwaitingDHKey).receiveDHCommitMessage"); fn != nil {
 		var cmp *ssa.Call
-		for _, b := range fn.Blocks {
-			for _, in := range b.Instrs {
-				if c, ok := in.(*ssa.Call); ok && a.F.callName(c) == "bytes.Compare" {
-					cmp = c
-				}
+		for _, cs := range a.CallsIn(fn, "bytes.Compare") { // the helpers of the handler included
+			if c, ok := cs.(*ssa.Call); ok {
+				cmp = c
 			}
 		}
 		if cmp == nil {
